@@ -259,8 +259,10 @@ def replay(rep, verbose=False):
     if family not in ("RIM", "KernelRIM"):
         kw["gemini"] = rep["gemini"]
     bad = False
-    for trial in range(3):
-        X = rng.normal(size=(dm["n"] + trial, d)) * 2
+    for trial in range(5):
+        # small and large steps: an incoherence that lives in the LAST update only shows when that update moves an arg-max
+        X = rng.normal(size=(dm["n"] + trial + (6 if trial >= 3 else 0), d)) * 2
+        kw["learning_rate"] = [1e-3, 0.5, 5.0, 0.5, 5.0][trial]
         checks = concrete_coherence(family, kw, X, verbose=verbose)
         for nm, ok in checks:
             if not ok:
